@@ -159,6 +159,124 @@ void run_c07(const std::vector<std::vector<std::string>>& cases, vt::Rng& rng)
    }
 }
 
+
+// ---- C04 -------------------------------------------------------------------------------
+// case line: <id> <tbclass> <softsign> <gauginosign> <structure> <swap>
+//   tbclass    half | one | mid | large(200)
+//   softsign   pos | negL | negR | negsnu     (sign class of the soft masses squared)
+//   gauginosign  ppp | pmm | mpm | mmp ...      signs of (mu, M1, M2); Bmu sign: last char of structure
+//   structure  generic | degenerate | bigA | negBmu
+//   swap       none | 01 | 02 | 12             generation exchange (emits a second event)
+struct LagPt {
+   double g1, g2, g3, vd, vu, Mu, BMu, M1, M2, M3;
+   double mq2[3], mu2[3], md2[3], ml2[3], me2[3], Yu[3], Yd[3], Ye[3], TYu[3], TYd[3], TYe[3];
+};
+
+void apply_lag(MSSMNoFV_onshell_mass_eigenstates& m, const LagPt& p)
+{
+   m.set_g1(p.g1); m.set_g2(p.g2); m.set_g3(p.g3); m.set_vd(p.vd); m.set_vu(p.vu); m.set_Mu(p.Mu); m.set_BMu(p.BMu);
+   m.set_MassB(p.M1); m.set_MassWB(p.M2); m.set_MassG(p.M3);
+   for (int i = 0; i < 3; ++i) {
+      m.set_mq2(i, i, p.mq2[i]); m.set_mu2(i, i, p.mu2[i]); m.set_md2(i, i, p.md2[i]); m.set_ml2(i, i, p.ml2[i]); m.set_me2(i, i, p.me2[i]);
+      m.set_Yu(i, i, p.Yu[i]); m.set_Yd(i, i, p.Yd[i]); m.set_Ye(i, i, p.Ye[i]);
+      m.set_TYu(i, i, p.TYu[i]); m.set_TYd(i, i, p.TYd[i]); m.set_TYe(i, i, p.TYe[i]);
+   }
+}
+
+NV lag_fields(const LagPt& p)
+{
+   NV v{{"g1", p.g1}, {"g2", p.g2}, {"vd", p.vd}, {"vu", p.vu}, {"Mu", p.Mu}, {"BMu", p.BMu}, {"M1", p.M1}, {"M2", p.M2}, {"M3", p.M3}};
+   for (int i = 0; i < 3; ++i) {
+      const std::string s = std::to_string(i);
+      v.push_back({"mq2_" + s, p.mq2[i]}); v.push_back({"mu2_" + s, p.mu2[i]}); v.push_back({"md2_" + s, p.md2[i]});
+      v.push_back({"ml2_" + s, p.ml2[i]}); v.push_back({"me2_" + s, p.me2[i]});
+      v.push_back({"Yu_" + s, p.Yu[i]}); v.push_back({"Yd_" + s, p.Yd[i]}); v.push_back({"Ye_" + s, p.Ye[i]});
+      v.push_back({"TYu_" + s, p.TYu[i]}); v.push_back({"TYd_" + s, p.TYd[i]}); v.push_back({"TYe_" + s, p.TYe[i]});
+   }
+   return v;
+}
+
+void emit_spectrum(const std::string& id, const std::string& sig, const std::string& role, const LagPt& p)
+{
+   MSSMNoFV_onshell_mass_eigenstates m;
+   apply_lag(m, p);
+   m.do_force_output(true);
+   const std::string exc = vm::exc_class([&] { m.calculate_DRbar_masses(); });
+   vt::Ev ev("Spectrum");
+   ev.str("case", id).str("sig", sig).str("role", role).str("exc", exc).raw("par", vm::named_json(lag_fields(p)));
+   NV ms;
+   ms.push_back({"MSveL", m.get_MSveL()}); ms.push_back({"MSvmL", m.get_MSvmL()}); ms.push_back({"MSvtL", m.get_MSvtL()});
+   vm::push_mat(ms, "MSd", m.get_MSd()); vm::push_mat(ms, "MSs", m.get_MSs()); vm::push_mat(ms, "MSb", m.get_MSb());
+   vm::push_mat(ms, "MSu", m.get_MSu()); vm::push_mat(ms, "MSc", m.get_MSc()); vm::push_mat(ms, "MSt", m.get_MSt());
+   vm::push_mat(ms, "MSe", m.get_MSe()); vm::push_mat(ms, "MSm", m.get_MSm()); vm::push_mat(ms, "MStau", m.get_MStau());
+   vm::push_mat(ms, "Mhh", m.get_Mhh()); vm::push_mat(ms, "MAh", m.get_MAh()); vm::push_mat(ms, "MHpm", m.get_MHpm());
+   vm::push_mat(ms, "MChi", m.get_MChi()); vm::push_mat(ms, "MCha", m.get_MCha());
+   ms.push_back({"MVWm", m.get_MVWm()}); ms.push_back({"MVZ", m.get_MVZ()}); ms.push_back({"MGlu", m.get_MGlu()});
+   ev.raw("mass", vm::named_json(ms));
+   NV mx;
+   vm::push_mat(mx, "ZD", m.get_ZD()); vm::push_mat(mx, "ZS", m.get_ZS()); vm::push_mat(mx, "ZB", m.get_ZB());
+   vm::push_mat(mx, "ZU", m.get_ZU()); vm::push_mat(mx, "ZC", m.get_ZC()); vm::push_mat(mx, "ZT", m.get_ZT());
+   vm::push_mat(mx, "ZE", m.get_ZE()); vm::push_mat(mx, "ZM", m.get_ZM()); vm::push_mat(mx, "ZTau", m.get_ZTau());
+   vm::push_mat(mx, "ZH", m.get_ZH()); vm::push_mat(mx, "ZA", m.get_ZA()); vm::push_mat(mx, "ZP", m.get_ZP());
+   vm::push_cmat(mx, "ZN", m.get_ZN()); vm::push_cmat(mx, "UM", m.get_UM()); vm::push_cmat(mx, "UP", m.get_UP());
+   ev.raw("mix", vm::named_json(mx));
+   // tachyon names as reported
+   std::vector<std::string> tach;
+   std::string txt = m.get_problems().get_problems();
+   const std::string pre = "Problem: ";
+   if (txt.compare(0, pre.size(), pre) == 0) txt = txt.substr(pre.size());
+   std::size_t pos = 0;
+   while (pos < txt.size()) {
+      std::size_t e = txt.find(", ", pos);
+      std::string item = txt.substr(pos, e == std::string::npos ? std::string::npos : e - pos);
+      const std::string suf = " tachyon";
+      if (item.size() > suf.size() && item.compare(item.size() - suf.size(), suf.size(), suf) == 0) item = item.substr(0, item.size() - suf.size());
+      if (!item.empty()) tach.push_back(item);
+      if (e == std::string::npos) break;
+      pos = e + 2;
+   }
+   ev.strs("tach", tach);
+   ev.emit();
+}
+
+void run_c04(const std::vector<std::vector<std::string>>& cases, vt::Rng& rng)
+{
+   for (const auto& c : cases) {
+      const std::string& id = c.at(0);
+      const std::string &tbc = c.at(1), &soft = c.at(2), &gs = c.at(3), &st = c.at(4), &swap = c.at(5);
+      LagPt p;
+      p.g1 = rng.uni(0.44, 0.48); p.g2 = rng.uni(0.62, 0.66); p.g3 = rng.uni(1.0, 1.3);
+      const double tb = tbc == "half" ? 0.5 : tbc == "one" ? 1.0 : tbc == "large" ? 200.0 : rng.logu(1.5, 60);
+      const double v = rng.uni(240, 250);
+      p.vd = v / std::sqrt(1 + tb * tb); p.vu = p.vd * tb;
+      auto sg = [&](int i) { return gs.at(i) == 'm' ? -1.0 : 1.0; };
+      p.Mu = sg(0) * rng.logu(100, 3000); p.M1 = sg(1) * rng.logu(50, 3000); p.M2 = sg(2) * rng.logu(100, 3000); p.M3 = rng.sign() * rng.logu(500, 5000);
+      const double mA = rng.logu(200, 3000);
+      p.BMu = mA * mA * tb / (1 + tb * tb) * (st == "negBmu" ? -1.0 : 1.0);
+      const double mf_u[3] = {0.0022, 1.28, 165}, mf_d[3] = {0.0047, 0.096, 2.9}, mf_e[3] = {0.000511, 0.10566, 1.777};
+      for (int i = 0; i < 3; ++i) {
+         const double common = rng.logu(200, 3000);
+         auto soft2 = [&](bool neg) { const double m = st == "degenerate" ? common : rng.logu(200, 3000); return (neg ? -1.0 : 1.0) * m * m; };
+         p.mq2[i] = soft2(soft == "negL"); p.ml2[i] = soft2(soft == "negL" || soft == "negsnu");
+         p.mu2[i] = soft2(soft == "negR"); p.md2[i] = soft2(soft == "negR"); p.me2[i] = soft2(soft == "negR");
+         p.Yu[i] = std::sqrt(2.0) * mf_u[i] / p.vu; p.Yd[i] = std::sqrt(2.0) * mf_d[i] / p.vd; p.Ye[i] = std::sqrt(2.0) * mf_e[i] / p.vd;
+         const double a = st == "bigA" ? rng.sign() * rng.logu(3000, 3e5) : (st == "degenerate" ? 0.0 : rng.uni(-1500, 1500));
+         p.TYu[i] = p.Yu[i] * a; p.TYd[i] = p.Yd[i] * a * (st == "bigA" ? 40 : 1); p.TYe[i] = p.Ye[i] * a * (st == "bigA" ? 40 : 1);
+      }
+      if (st == "degenerate") p.Mu = 0.0;      // exactly vanishing sfermion mixing for the up sector at vd*mu = 0
+      const std::string sig = tbc + "/" + soft + "/" + gs + "/" + st;
+      emit_spectrum(id, sig, "orig", p);
+      if (swap != "none") {
+         const int a = swap[0] - '0', b = swap[1] - '0';
+         LagPt q = p;
+         std::swap(q.mq2[a], q.mq2[b]); std::swap(q.mu2[a], q.mu2[b]); std::swap(q.md2[a], q.md2[b]); std::swap(q.ml2[a], q.ml2[b]);
+         std::swap(q.me2[a], q.me2[b]); std::swap(q.Yu[a], q.Yu[b]); std::swap(q.Yd[a], q.Yd[b]); std::swap(q.Ye[a], q.Ye[b]);
+         std::swap(q.TYu[a], q.TYu[b]); std::swap(q.TYd[a], q.TYd[b]); std::swap(q.TYe[a], q.TYe[b]);
+         emit_spectrum(id, sig + "/swap" + swap, "swap" + swap, q);
+      }
+   }
+}
+
 } // namespace
 
 int main(int argc, char** argv)
@@ -172,6 +290,7 @@ int main(int argc, char** argv)
    if (mode == "c18") run_c18(cases, rng);
    else if (mode == "c06") run_c06(cases, rng);
    else if (mode == "c07") run_c07(cases, rng);
+   else if (mode == "c04") run_c04(cases, rng);
    else { std::fprintf(stderr, "unknown mode %s\n", mode.c_str()); return 2; }
    vt::flush_trace();
    return 0;
